@@ -104,6 +104,14 @@ def o_document_concat(ctx):
                     if suffix == "" and d.body != d.officeDocument:
                         out.append(("document_concat", "body != officeDocument"))
                 try:
+                    import warnings as _w
+                    with _w.catch_warnings():
+                        _w.simplefilter("ignore")
+                        if d.properties != d.core_properties:
+                            out.append(("document_concat", "properties (deprecated alias) != core_properties"))
+                except Exception:  # noqa: BLE001
+                    pass
+                try:
                     dp = d.document_pars
                     cat = [x for n in ("header", "body", "footer", "footnotes", "endnotes") for x in getattr(d, n + "_pars")]
                     if len(dp) != len(cat) or any(a is not b for a, b in zip(
